@@ -64,10 +64,10 @@ _valid_cache = {}
 def valid_go_regexp(p, rec, i, case):
     """whether Go's regexp accepts p: read off the run itself - a pattern that some operation so far reported as
     not invalid compiled (the harness compares each answer with a private regexp.Compile)"""
-    if p in _valid_cache:
-        return _valid_cache[p]
-    # the harness answers: an op with this pattern is 'invalid' exactly when regexp.Compile fails; wrong answers are reported separately
-    return p not in ("(", "[", "*")
+    for k, op in enumerate(case["ops"]):
+        if op["p"] == p:
+            return bool(rec["pattern_valid"][k])
+    return True
 
 
 def run(chk):
